@@ -13,7 +13,9 @@ import "fmt"
 // state; that makes the sleep sets exact and lets the race analysis run before the operation executes.
 type DPOR struct {
 	MaxExecs int
-	Setup    func(w *World) func()
+	// KeepLog keeps the event log of every execution (trace collection for the conformance pass).
+	KeepLog bool
+	Setup   func(w *World) func()
 	// AtTerminal is called at the end of every complete execution (no thread enabled).
 	AtTerminal func(w *World)
 	// OnState is called for every newly visited state with its enabled alternatives.
@@ -197,6 +199,7 @@ func (e *DPOR) Explore() {
 			return
 		}
 		w := NewWorld()
+		w.KeepLog = e.KeepLog
 		body := e.Setup(w)
 		r := &dporRun{e: e, replay: replay}
 		e.cur = r
